@@ -15,6 +15,7 @@ import (
 
 	"github.com/RoaringBitmap/roaring"
 	segment "github.com/blugelabs/bluge_segment_api"
+	ice "github.com/blugelabs/ice/v2"
 
 	refice "verif/harness/refice"
 )
@@ -27,6 +28,8 @@ type Impl struct {
 	Merger    func(segs []segment.Segment, drops []*roaring.Bitmap, bufSize int) segment.Merger
 	Load      func(data *segment.Data) (segment.Segment, error)
 	PoolProbe func() bool
+	// InterimPostings: the builder's in-memory postings state (verif hook; current implementation only)
+	InterimPostings func(docs []segment.Document, norm func(string, int) float32) ([]string, [][]ice.VerifTermPostings, error)
 }
 
 // Op codes (must match Run.v).
@@ -45,6 +48,7 @@ const (
 	OpFooter       = 20
 	OpLayout       = 21
 	OpContainer    = 22
+	OpInterim      = 23
 )
 
 const ErrMark = 4294967294
@@ -200,6 +204,8 @@ func (o *Op) Encode(w *W) {
 	case OpFooter:
 		w.Num(uint64(o.Slot))
 		w.Bytes(o.File)
+	case OpInterim:
+		w.Batch(o.Batch)
 	case OpContainer:
 		w.Num(uint64(o.Slot))
 		w.Bytes(o.File)
@@ -548,6 +554,38 @@ func (in *Interp) RunOp(o *Op) (out W) {
 		return in.layoutOp(o)
 	case OpContainer:
 		return in.containerOp(o)
+	case OpInterim:
+		// the builder's in-memory state after the per-document pass (verif hook),
+		// compared with the statement-by-statement builder model (Builder.v)
+		if in.Impl.InterimPostings == nil {
+			return W{ErrMark, 1}
+		}
+		fields, terms, err := in.Impl.InterimPostings(o.Batch.Documents(), HarnessNorm)
+		if err != nil {
+			return errOut(err)
+		}
+		out.Num(uint64(len(fields)))
+		for i, f := range fields {
+			out.Str(f)
+			out.Num(uint64(len(terms[i])))
+			for _, t := range terms[i] {
+				out.Str(t.Term)
+				out.Num(uint64(len(t.Docs)))
+				for k, d := range t.Docs {
+					out.Num(uint64(d))
+					out.Num(t.Freqs[k])
+					out.Num(uint64(t.Norms[k]))
+					out.Num(uint64(len(t.Locs[k])))
+					for _, l := range t.Locs[k] {
+						out.Num(l[0])
+						out.Num(l[1])
+						out.Num(l[2])
+						out.Num(l[3])
+					}
+				}
+			}
+		}
+		in.Touched["interim_checked"]++
 	default:
 		panic("unknown op")
 	}
